@@ -25,6 +25,8 @@ func c07Decorate(d c07Deco, n *yaml.Node, styles []yaml.Style) {
 var c07ScalarStyles = []yaml.Style{0, yaml.SingleQuotedStyle}
 var c07CollStyles = []yaml.Style{0, yaml.FlowStyle}
 
+var c07KeyS = "s"
+
 func c07Doc(x [4]string, deco int, d c07Deco) *CandidateNode {
 	// only one node per run gets solver-chosen decoration (others fixed, non-trivial), which keeps the
 	// product of attribute choices linear in the number of nodes
@@ -54,7 +56,7 @@ func c07Doc(x [4]string, deco int, d c07Deco) *CandidateNode {
 	c := mk("c", vSeq(c0, c1), true)
 	c.Anchor = "anc"
 	s := mk("s", vInt(x[3]), false)
-	ks := mk("ks", vStr("s"), false)
+	ks := mk("ks", vStr(c07KeyS), false)
 	root := mk("root", vMap(vStr("a"), a, vStr("c"), c, ks, s), true)
 	return vDoc(root)
 }
@@ -97,11 +99,12 @@ type c07Update struct {
 }
 
 func VerifC07Untouched() {
-	x := [4]string{verifStrN("x0", 1, "03"), verifStrN("x1", 1, "03"), verifStrN("x2", 1, "03"), verifStrN("x3", 1, "03")}
+	x := [4]string{verifStrN("x0", 1, vDigits()), verifStrN("x1", 1, vDigits()), verifStrN("x2", 1, vDigits()), verifStrN("x3", 1, vDigits())}
 	deco := verifChoice("decoratedNode", c07Nodes)
 	v := verifStrN("v", 1, "49")
 	i := 0
-	which := verifChoice("update", 10)
+	which := verifChoice("update", 11)
+	c07KeyS = "s"
 	var u c07Update
 	// positions: root.Content = [ka, a, kc, c, ks, s]; a.Content = [kb, b]; c.Content = [c0, c1]
 	switch which {
@@ -127,6 +130,10 @@ func VerifC07Untouched() {
 		u = c07Update{name: "store-merge-result", text: ".n = .a * {\"z\": 7770009, \"b\": 7770009}", skipAfter: [][]int{{6}, {7}}}
 	case 9:
 		u = c07Update{name: "store-concat-result", text: ".n = .c + [7770009]", skipAfter: [][]int{{6}, {7}}}
+	case 10: // an entry selected by what it holds, not by its key; the key is arbitrary text (glob characters included)
+		c07KeyS = verifStrN("keyOfS", 1, "*z")
+		verifAssume(!verifEqStr(c07KeyS, "a") && !verifEqStr(c07KeyS, "c"))
+		u = c07Update{name: "delete-selected-entry", text: "del(.[] | select(tag == \"!!int\"))", skipBefore: [][]int{{4}, {5}}}
 	}
 	d := c07DrawDeco()
 	doc := c07Doc(x, deco, d)
